@@ -70,6 +70,8 @@ def load_one(lit: LineIterator) -> dict:
 
     # mulliken charges
     if data.get("mulliken_charges") is not None:
+        if len(data["mulliken_charges"]) != len(data["atnums"]):
+            raise LoadError("The number of Mulliken charges differs from the number of atoms.", lit)
         result["atcharges"] = {"mulliken": data["mulliken_charges"]}
 
     # build molecular orbitals
